@@ -22,6 +22,7 @@ ROOT = os.path.dirname(os.path.dirname(os.path.abspath(__file__)))
 EVIDENCE_DIR = os.path.join(ROOT, "evidence")
 REPLAY_DIR = os.path.join(ROOT, "replays")
 KNOWN_FILE = os.path.join(ROOT, "known_findings.json")
+REPO = os.path.realpath(os.environ.get("VERIF_REPO", "/repo"))
 
 MAX_PRINTED = 25
 
@@ -35,11 +36,16 @@ def stable_hash(obj):
 
 
 def load_known(pid):
-    try:
-        data = json.load(open(KNOWN_FILE))
-    except FileNotFoundError:
-        return []
-    return [e for e in data.get("findings", []) if e.get("property") == pid and e.get("status") == "open"]
+    """Open findings for pid from known_findings.json (+ optional known_findings.d/*.json)."""
+    import glob
+    out = []
+    for path in [KNOWN_FILE] + sorted(glob.glob(os.path.join(ROOT, "known_findings.d", "*.json"))):
+        try:
+            data = json.load(open(path))
+        except FileNotFoundError:
+            continue
+        out += [e for e in data.get("findings", []) if e.get("property") == pid and e.get("status") == "open"]
+    return out
 
 
 def _matches(entry, key):
@@ -260,8 +266,8 @@ def main(pid, tier, seed, replay=None):
     code = 0
     try:
         import chempy
-        if not os.path.realpath(chempy.__file__).startswith("/repo/"):
-            raise MachineryFailure("chempy imported from %s, not /repo" % chempy.__file__)
+        if not os.path.realpath(chempy.__file__).startswith(REPO + "/"):
+            raise MachineryFailure("chempy imported from %s, not %s" % (chempy.__file__, REPO))
         if replay is not None:
             rec = json.load(open(replay))
             mod.replay(ctx, rec)
